@@ -98,6 +98,9 @@ def simplify_op(op):
             yield dict(op, form="es")
 
 
+PPM_NEED = (12, 12)     # absolute counts per slot parity for the pulse-position patterns
+
+
 def _bits(op):
     rs = np.random.RandomState(op["bseed"])
     n = op["nslots"]
@@ -105,6 +108,15 @@ def _bits(op):
         b = rs.randint(0, 2, n)
     elif op["pattern"] in ("sparse", "dense"):      # unbalanced mark density (30 % / 70 %), still random
         b = (rs.rand(n) < (0.3 if op["pattern"] == "sparse" else 0.7)).astype(int)
+    elif op["pattern"] in ("ppm8", "ppm16", "ppm32"):
+        # pulse-position frames: one mark per M slots at a random position (strongly unbalanced, still random)
+        M_ = int(op["pattern"][3:])
+        b = np.zeros(n, dtype=int)
+        pos = rs.randint(0, M_, n // M_ + 1)
+        idx = np.arange(n // M_ + 1) * M_ + pos
+        b[idx[idx < n]] = 1
+        if op.get("inv"):
+            b = 1 - b
     elif op["pattern"] == "prbs":
         st = (op["bseed"] % 127) or 1
         b = np.zeros(n, dtype=int)
@@ -124,6 +136,8 @@ def _bits(op):
     k = 0
     need_tr = max(4, n // 8)
     need_lv = max(6, n // 10)
+    if op["pattern"].startswith("ppm"):
+        need_tr, need_lv = PPM_NEED
     while k <= 600:
         tr = np.where(np.diff(b) != 0)[0] + 1
         par = np.bincount(tr % 2, minlength=2)
